@@ -90,6 +90,18 @@ Theorem C19_reverse_latin1 : forall c bs, (1 <= bs)%nat -> no_lone_cr c = true -
 Proof. exact reverse_latin1_spec. Qed.
 Print Assumptions C19_reverse_latin1.
 
+(* text-mode file in any single-byte encoding whose table keeps \n and \r (cp1252, iso8859-x, koi8-r, cp437,
+   mac-roman ... - the tables are regenerated from the interpreter's codecs and checked by C19_sbcs_ok) *)
+Theorem C19_reverse_sbcs : forall tbl c t bs, table_ok tbl = true -> (1 <= bs)%nat ->
+  sb_decode tbl c = Some t -> no_lone_cr t = true ->
+  reverse_iter_lines (TextTable tbl) c bs (length c) = Ok (reverse_lines_spec t).
+Proof. exact (fun tbl c t bs OK => reverse_table_spec tbl OK c t bs). Qed.
+Print Assumptions C19_reverse_sbcs.
+
+Theorem C19_sbcs_ok : forallb table_ok gen_sbcs = true.
+Proof. exact (eq_refl true). Qed.
+Print Assumptions C19_sbcs_ok.
+
 Example C19_reverse_text_ex :
   let t := [233; 10; 8364; 120; 13; 10; 119070; 8232; 121] in
   forallb is_scalar t = true /\ no_lone_cr t = true /\
@@ -142,6 +154,14 @@ Theorem C19_jsonl_latin1 : forall (obj : Type) (loads : text -> option obj),
   jsonl_iter loads TextLatin1 ie true c = Ok (jsonl_reverse_spec loads is_ws_str ie c).
 Proof. exact @jsonl_latin1. Qed.
 Print Assumptions C19_jsonl_latin1.
+
+Theorem C19_jsonl_sbcs : forall (obj : Type) (loads : text -> option obj) (tbl : sb_table),
+  table_ok tbl = true -> (forall s, loads (s ++ [LF]) = loads s) ->
+  forall c t ie, sb_decode tbl c = Some t -> no_lone_cr t = true ->
+  jsonl_iter loads (TextTable tbl) ie false c = Ok (jsonl_forward_spec loads is_ws_str ie t) /\
+  jsonl_iter loads (TextTable tbl) ie true c = Ok (jsonl_reverse_spec loads is_ws_str ie t).
+Proof. exact @jsonl_table. Qed.
+Print Assumptions C19_jsonl_sbcs.
 
 Theorem C19_jsonl_text_mirror : forall (obj : Type) (loads : text -> option obj),
   (forall s, loads (s ++ [LF]) = loads s) ->
